@@ -18,18 +18,34 @@ import (
 	"ti/verifrt"
 )
 
-var sigmaR = []rune{'a', 'Z', '_', '1', '0', 'x', 'e', ' ', '\t', '\n', '\r', '"', '\'', '\\', '#', '{', '}', '(', ')', '[', ']',
+var sigmaR = atoms([]rune{'a', 'Z', '_', '1', '0', 'x', 'e', ' ', '\t', '\n', '\r', '"', '\'', '\\', '#', '{', '}', '(', ')', '[', ']',
 	',', ';', '^', '`', '<', '>', '=', '.', '%', 'w', '!', '+', '-', '/', '&', '|', ':', '*', '?', '@', '$', '~',
-	0, 0xFFFD, 'é', 'あ', 0x00A0, 0x3000, 'E'}
+	0, 0xFFFD, 'é', 'あ', 0x00A0, 0x3000, 'E'})
 
 // a 30-rune sub-alphabet for one more level of depth
-var sigmaR30 = []rune{'a', 'Z', '1', 'x', ' ', '\n', '"', '\'', '\\', '#', '{', '}', '(', ')', '[', ']', ',', '<', '=', '.', '%', 'w',
-	'-', '&', '|', ':', '*', '?', '@', 0}
+var sigmaR30 = atoms([]rune{'a', 'Z', '1', 'x', ' ', '\n', '"', '\'', '\\', '#', '{', '}', '(', ')', '[', ']', ',', '<', '=', '.', '%', 'w',
+	'-', '&', '|', ':', '*', '?', '@', 0})
+
+// the wide alphabet adds one representative of every further class the Unicode predicates and the
+// UTF-8 decoder distinguish: non-ASCII decimal digits, upper-case letter, symbol, astral rune, line
+// and paragraph separators, BOM, DEL, VT, FF, and three ill-formed byte sequences (lone lead byte,
+// truncated three-byte sequence, byte that is never valid)
+var sigmaWide = append(append([]string{}, sigmaR...), append(atoms([]rune{0xFF11, 0x0663, 'É', 0x2192, 0x1F600, 0x2028, 0x2029, 0xFEFF, 0x7F, '\v', '\f', 0x0301}),
+	"\xE9", "\xE3\x81", "\xFF")...)
+
+func atoms(rs []rune) []string {
+	out := make([]string, len(rs))
+	for i, r := range rs {
+		out[i] = string(r)
+	}
+	return out
+}
 
 type finding struct {
 	Sig     string `json:"sig"`
 	Count   int64  `json:"count"`
-	Example string `json:"example"`
+	Example string `json:"-"`
+	Raw     []byte `json:"example_raw"` // the example's bytes (it may be ill-formed UTF-8)
 }
 
 type summary struct {
@@ -164,15 +180,18 @@ func parseOne(s string) {
 
 func main() {
 	maxLen := flag.Int("len", 3, "max string length")
-	alpha := flag.String("alphabet", "r50", "r50|r30")
+	alpha := flag.String("alphabet", "r50", "r50|r30|wide")
 	shard := flag.Int("shard", 0, "shard index")
 	nshard := flag.Int("nshard", 1, "number of shards")
 	single := flag.String("string", "", "check one string (JSON quoted) and print findings")
 	corpus := flag.String("corpus", "", "file with one JSON-quoted string per line: check every rune prefix of each")
 	flag.Parse()
 	A := sigmaR
-	if *alpha == "r30" {
+	switch *alpha {
+	case "r30":
 		A = sigmaR30
+	case "wide":
+		A = sigmaWide
 	}
 	sum.Alphabet, sum.MaxLen, sum.Shard = len(A), *maxLen, fmt.Sprintf("%d/%d", *shard, *nshard)
 	check := func(s string) {
@@ -211,80 +230,45 @@ func main() {
 			}
 		}
 	default:
-		// depth-first enumeration; sharded on the first two runes
-		buf := make([]rune, 0, *maxLen+1)
-		idx := 0
-		var rec func(depth int)
-		rec = func(depth int) {
-			if depth > 0 {
-				s := string(buf)
-				check(s)
-				if buf[len(buf)-1] != '\n' {
-					check(s + "\n")
-				}
-			}
-			if depth == *maxLen {
-				return
-			}
-			for _, r := range A {
-				if depth == 1 || (depth == 0 && *maxLen == 1) {
-					// shard on (first, second) pair index
-				}
-				buf = append(buf, r)
-				if depth == 1 {
-					idx++
-					if idx%*nshard != *shard {
-						buf = buf[:len(buf)-1]
-						continue
-					}
-				}
-				rec(depth + 1)
-				buf = buf[:len(buf)-1]
-			}
-		}
-		// length-1 strings belong to shard 0 only
+		// depth-first enumeration; sharded on the (first, second) atom pair; length-1 strings belong to shard 0
 		if *shard == 0 {
-			for _, r := range A {
-				s := string([]rune{r})
-				check(s)
-				if r != '\n' {
-					check(s + "\n")
+			for _, a := range A {
+				check(a)
+				if a != "\n" {
+					check(a + "\n")
 				}
 			}
 		}
 		if *maxLen >= 2 {
-			for _, r := range A {
-				buf = append(buf[:0], r)
-				// depth 1 already reported above; descend
-				for _, r2 := range A {
+			idx := 0
+			for _, a1 := range A {
+				for _, a2 := range A {
 					idx++
 					if idx%*nshard != *shard {
 						continue
 					}
-					buf = append(buf[:1], r2)
-					recFrom(A, &buf, 2, *maxLen, check)
+					recFrom(A, a1+a2, a2, 2, *maxLen, check)
 				}
 			}
 		}
-		_ = rec
 	}
 	sum.DistinctTok = len(tokShapes)
+	for _, f := range sum.Findings {
+		f.Raw = []byte(f.Example)
+	}
 	enc := json.NewEncoder(os.Stdout)
 	enc.Encode(sum)
 }
 
-func recFrom(A []rune, buf *[]rune, depth, maxLen int, check func(string)) {
-	s := string(*buf)
+func recFrom(A []string, s, last string, depth, maxLen int, check func(string)) {
 	check(s)
-	if (*buf)[len(*buf)-1] != '\n' {
+	if last != "\n" {
 		check(s + "\n")
 	}
 	if depth == maxLen {
 		return
 	}
-	for _, r := range A {
-		*buf = append(*buf, r)
-		recFrom(A, buf, depth+1, maxLen, check)
-		*buf = (*buf)[:len(*buf)-1]
+	for _, a := range A {
+		recFrom(A, s+a, a, depth+1, maxLen, check)
 	}
 }
